@@ -120,13 +120,25 @@ def run(tier, seed):
     from architecture_simulator.simulation.toy_simulation import ToySimulation
     rnd = random.Random(seed + 16)
     evals, viol, shapes = 0, [], set()
-    for it in range(160 if tier == "quick" else 6000):
-        prog = progs.random_program(rnd, rnd.randint(2, 12))
+    from architecture_simulator.isa.riscv import rv32i_instructions as I
+    for it in range(320 if tier == "quick" else 9000):
+        dense = it % 2 == 1
+        if dense:
+            # memory-dense programs over a handful of blocks with small associative caches: hits on blocks that are not
+            # the most recently used one, between inspections
+            prog = [rnd.choice([lambda: I.LW(rnd.choice([1, 2]), 3, 4 * rnd.choice([0, 1, 8, 9, 16, 17, 24])), lambda: I.LW(1, 3, 4 * rnd.choice([0, 8, 16])),
+                                lambda: I.SW(3, rnd.choice([1, 2]), 4 * rnd.choice([0, 1, 8, 16, 24])), lambda: I.LBU(2, 3, rnd.choice([0, 33, 65])),
+                                lambda: I.ADDI(1, 1, 1), lambda: I.ADDI(0, 0, 0)])() for _ in range(rnd.randint(4, 12))]
+        else:
+            prog = progs.random_program(rnd, rnd.randint(2, 12))
         regs = progs.initial_regs(rnd)
         mode = rnd.choice(["single_stage_pipeline", "five_stage_pipeline"])
-        cached = rnd.random() < 0.6
+        cached = dense or rnd.random() < 0.6
         d = i = None
-        if cached:
+        if cached and dense:
+            d = CacheOptions(True, rnd.randint(0, 1), rnd.randint(0, 1), rnd.choice([2, 2, 4]), rnd.choice(["wb", "wt"]), rnd.choice(["lru", "lru", "plru"]), rnd.choice([0, 3]))
+            i = CacheOptions(True, rnd.randint(0, 1), 0, 2, "wb", rnd.choice(["lru", "plru"]), rnd.choice([0, 2]))
+        elif cached:
             d = CacheOptions(True, rnd.randint(0, 2), rnd.randint(0, 1), rnd.choice([1, 2, 4]), rnd.choice(["wb", "wt"]), rnd.choice(["lru", "plru"]), rnd.choice([0, 3]))
             i = CacheOptions(True, rnd.randint(0, 1), rnd.randint(0, 1), rnd.choice([1, 2]), "wb", rnd.choice(["lru", "plru"]), rnd.choice([0, 2]))
         fns = RISCV + (FIVE if mode.startswith("five") else SINGLE)
